@@ -101,6 +101,17 @@ def build_driver(name, extra_srcs=()):
         raise InfraError("driver %s failed to compile (API of /repo changed?):\n%s" % (name, p.stderr[-4000:]))
     return exe
 
+def build_shim():
+    """PMPI scheduling shim (harness/pmpi_sched.c) -> .cache/pmpi_sched-<hash>.so"""
+    src = os.path.join(VERIF, "harness", "pmpi_sched.c")
+    h = hashlib.sha256(open(src, "rb").read()).hexdigest()[:12]
+    so = os.path.join(CACHE, "pmpi_sched-%s.so" % h)
+    if not os.path.exists(so):
+        os.makedirs(CACHE, exist_ok=True)
+        p = subprocess.run(["mpicc", "-shared", "-fPIC", "-O1", "-o", so, src], capture_output=True, text=True, env=env())
+        if p.returncode != 0: raise InfraError("pmpi shim failed to build:\n" + p.stderr[-2000:])
+    return so
+
 def run_driver(exe, casefile, nprocs=1, timeout=600, extra_env=None, args=()):
     e = env()
     if extra_env: e.update(extra_env)
